@@ -25,6 +25,16 @@ pub fn property() -> Property {
                 replay: |v| replay_case::<TextSessionCase, _>(v, check_session),
             },
             Part {
+                // perpetual-check skeletons with two cycles of history: the best line of a deeper iteration is often the single
+                // move that completes a third occurrence, where a shallower iteration had a longer (greedier) line
+                name: "perpetual_check_roots",
+                quick: 1_600,
+                thorough: 40_000,
+                single_shard: false, supplementary: false,
+                run: |cfg| run_part(cfg, (gen::raw_synth_profiles(0, 9), 2..=5u64, 0..3u8), |(rs, d, cut)| perpetual_case(rs, *d, *cut), check_session),
+                replay: |v| replay_case::<TextSessionCase, _>(v, check_session),
+            },
+            Part {
                 name: "inprocess_sessions",
                 quick: 480,
                 thorough: 20_000,
@@ -52,6 +62,27 @@ pub enum TStep {
 pub struct TextSessionCase {
     pub steps: Vec<TStep>,
     pub binary: bool,
+}
+
+fn perpetual_case(rs: &gen::RawSynth, depth: u64, cut: u8) -> TextSessionCase {
+    let mut steps = vec![TStep::Ask("isready".into(), "readyok".into())];
+    // (a skeleton is only usable when the forced cycle exists: vary the generated one a little until it is)
+    let found = (0..12u8).find_map(|k| {
+        let mut v = rs.clone();
+        v.wk = v.wk.wrapping_add(k.wrapping_mul(5));
+        let n = v.pieces.len().max(1);
+        v.pieces.rotate_left(k as usize % n);
+        crate::props::c10::perpetual_root(&v)
+    });
+    if let Some((q, cyc)) = found {
+        // 8 plies = the root has occurred three times and the checking move completes a third occurrence of the next
+        // position; 6 / 4 plies = the same one / two moves earlier in the game
+        let plies = [8usize, 6, 4][cut as usize % 3];
+        let moves: Vec<String> = (0..plies).map(|i| cyc[i % 4].uci()).collect();
+        steps.push(TStep::Position { fen: q.fen(), moves });
+        steps.push(TStep::Go(GoSpec::depth(depth)));
+    }
+    TextSessionCase { steps, binary: false }
 }
 
 fn session_strategy() -> impl Strategy<Value = (Vec<RawCycle>, Vec<u8>)> {
